@@ -213,8 +213,13 @@ def main(tier, replay=None):
         k = rng.random()
         if k < 0.4:
             lex = str(rng.randint(1, 9)) + ''.join(rng.choice('0123456789') for _ in range(rng.randint(9, 40)))
-        elif k < 0.9:
+        elif k < 0.75:
             lex = str(rng.choice([2, 3, 5, 6, 7, 9, 10, 11, 12, 15, 17, 99, rng.randint(2, 999)])) + '^' + str(rng.randint(10, 60))
+        elif k < 0.9:     # large exponents, results of up to 4200 digits (what Python still prints)
+            import math as _m
+            b = rng.choice([2, 2, 2, 3, 5, 10, 7, rng.randint(2, 99)])
+            emax = int(4200 / _m.log10(b))
+            lex = str(b) + '^' + str(rng.choice([emax, emax - 1, rng.randint(61, emax), rng.randint(emax // 2, emax), 10001 if b == 2 else emax // 3]))
         else:
             lex = str(rng.randint(10 ** 9, 10 ** 18)) + '%'
         obs.append(run_variants(lib, F.num(lex), base_env(), [lex, '(' + lex + ')'], 'lit', True, want=spelled(lex)))
